@@ -53,13 +53,18 @@ P34b(t) == (NoReset(t) /\ t.err = "") => t.waitedEOF # "timeout"
 P0(t) == t.err = "" \/ t.dialErr
 P5(t) == t.returned /\ \A u \in DOMAIN t.ups : t.ups[u].opened => t.ups[u].closedAfterReturn
 
+\* P7 (UDP): while the association lives (no idle expiry within a run) all datagrams of the client go out from ONE
+\* upstream socket, and the upstream's answer to every one of them comes back to the client
+P7(t) == /\ t.udp.sources <= 1
+         /\ \A i \in 1..Len(t.udp.sent) : \E j \in 1..Len(t.udp.acks) : t.udp.acks[j] = t.udp.sent[i].seq
 \* P6 (UDP): every datagram the client sent reaches the upstream once, whole and unaltered, in order
 \*     t.udp.sent[i] = [seq, n]; t.udp.recv[j] = [seq, n, intact]
 P6(t) == /\ Len(t.udp.recv) = Len(t.udp.sent)
          /\ \A i \in DOMAIN t.udp.sent : i \in DOMAIN t.udp.recv =>
                (t.udp.recv[i].seq = t.udp.sent[i].seq /\ t.udp.recv[i].n = t.udp.sent[i].n /\ t.udp.recv[i].intact)
 ProxyViolations(t) ==
-  IF "udp" \in DOMAIN t THEN (IF P6(t) THEN {} ELSE {"P6 a datagram did not reach the upstream once, whole and in order"}) ELSE
+  IF "udp" \in DOMAIN t THEN (IF P6(t) THEN {} ELSE {"P6 a datagram did not reach the upstream once, whole and in order"})
+                              \cup (IF P7(t) THEN {} ELSE {"P7 (UDP) the client's datagrams did not travel over one upstream socket, or an answer of the upstream did not come back"}) ELSE
   (IF P0(t) THEN {} ELSE {"P0 the handler chain returned an error that is not a dial failure"}) \cup
   (IF P1(t) THEN {} ELSE {"P1 an upstream did not receive the client's stream exactly once in order"})
   \cup (IF P2(t) THEN {} ELSE {"P2 the client did not receive an upstream's bytes in order / completely"})
